@@ -6,6 +6,7 @@ single-version one" is the refinement itself: every read theorem (C03, C04, C09,
 stated over `abs` and holds whatever the versions of the segments are.
 -/
 import Klev.Proofs.Reach
+import Klev.Proofs.CrashProofs
 import Klev.Proofs.Witness
 namespace Klev.C17
 
@@ -47,6 +48,57 @@ NewSegmentsVersion otherwise (the version handed to `rewrite` in `Log.delete`). 
 theorem rewrite_version (p : Params) (s : Seg) (offs : List Int) (mv : Ver) :
     (rewrittenSeg p (rewrite p s offs mv mv)).ver = mv := rfl
 
+open Klev.Crash in
+/-- **Versions after a Delete**, on the files: every segment file afterwards is a file that was
+there before (untouched, version included), or the new empty head (in NewSegmentsVersion, log and
+index), or the rewritten segment — survivors of one old segment `x`, in `x`'s own version with
+KeepRewriteVersion and in NewSegmentsVersion without, index file in the same version. -/
+theorem delete_versions (l : Log) (hrw : l.opts.readonly = false) (offs : List Int) :
+    ∀ sd ∈ (l.delete offs).1.disk,
+      sd ∈ l.disk ∨
+      (sd.recs = [] ∧ sd.ver = l.opts.nsv ∧ sd.idxf = some ⟨l.opts.nsv, []⟩) ∨
+      (∃ x ∈ l.disk, sd.recs.Sublist x.recs ∧ sd.ver = (if l.opts.keep then x.ver else l.opts.nsv) ∧
+        ∃ f, sd.idxf = some f ∧ f.ver = sd.ver) := by
+  intro sd hsd
+  rcases delete_disk l hrw offs with ⟨_, hl⟩ | ⟨PRE, x, POST0, rw, nh, hd, _, hres, _, _, hsub, hver, hiver⟩
+  · left; rw [hl] at hsd; exact hsd
+  · rw [hres] at hsd
+    have hx : x ∈ l.disk := by rw [hd]; simp
+    rcases List.mem_append.mp hsd with h | h
+    · left; rw [hd]; exact List.mem_append_left _ h
+    · rcases List.mem_append.mp h with h | h
+      · -- the rewritten segment
+        right; right
+        unfold fin at h
+        split at h
+        · cases h
+        · simp only [List.mem_singleton] at h
+          subst h
+          exact ⟨x, hx, hsub, hver, ⟨rw.iver, _⟩, rfl, hiver⟩
+      · rcases List.mem_append.mp h with h | h
+        · left; rw [hd]; exact List.mem_append_right _ (List.mem_cons_of_mem _ h)
+        · -- the new head
+          split at h
+          · simp only [List.mem_singleton] at h
+            subst h
+            right; left
+            exact ⟨rfl, rfl, rfl⟩
+          · cases h
+
+/-- **New segments are in NewSegmentsVersion**: the segment a rollover creates (log file and index file). -/
+theorem rollover_version (l : Log) (h : Seg) (hl : l.segs.getLast? = some h)
+    (hr : needsRollover l.opts h = true) :
+    ∃ r, l.rollover.segs.getLast? = some r ∧ r.recs = [] ∧ r.ver = l.opts.nsv ∧
+      r.idxf = some ⟨l.opts.nsv, []⟩ := by
+  unfold Log.rollover
+  rw [hl]
+  simp only [hr, if_true]
+  refine ⟨(openWriter l.opts (emptySeg l.wNextOff) l.wNextTime).1, ?_, ?_, ?_, ?_⟩
+  · simp [List.getLast?_append]
+  · simp [openWriter, emptySeg]
+  · simp [openWriter, emptySeg]
+  · simp [openWriter, emptySeg]
+
 end Klev.C17
 
 /-! ### Non-vacuity: the theorems at the witness log `Witness.wL` (four V2 segments;
@@ -65,6 +117,10 @@ example := Klev.C17.rewrite_keeps_content
   (runOps wL [.reopen [] none false ⟨⟨false, ⟨true, true⟩, false, 60, Ver.v1, true⟩, false, false, false⟩,
     .publish [(60, [9], [9]), (61, [], [])], .publish [(62, [1], [0])]])
   (Klev.run_inv_abs wL wL_inv _).1 [4]
+
+-- versions on the files after a Delete (mixed-version witness: keep = true, nsv = V1) and of a rolled-over head
+example := Klev.C17.delete_versions wL wL_rw [4, 5]
+example : ((wL.delete [4, 5]).1.disk.map (·.ver), wL.disk.map (·.ver)) = ([.v2, .v2, .v2, .v2], [.v2, .v2, .v2, .v2]) := by decide
 
 -- evaluated: all log files in V1 afterwards, same content
 example : (stepOp wL (.reopen [0] (some .v1) true oo)).segs.map (·.ver) = [.v1, .v1, .v1, .v1] ∧
@@ -87,3 +143,5 @@ end NonVacuity
 #print axioms Klev.C17.migrate_versions
 #print axioms Klev.C17.migrate_idempotent
 #print axioms Klev.C17.rewrite_version
+#print axioms Klev.C17.delete_versions
+#print axioms Klev.C17.rollover_version
